@@ -41,6 +41,8 @@ def _user_calls(tr, b):
 
 
 def run(facts, tr, rep):
+    # shallow view: a strategy arm moved into a private (async) helper function is analysed in place
+    facts, tr = facts.shallow, tr.shallow
     _n_cl = check_clone_variants(facts, tr, rep, "C17.CLONE-FAITHFUL", crate_names=["tower_resilience_fallback"])
     rep.note("hand-written enum Clone arms examined: %d" % _n_cl)
     sbs = service_call_bodies(facts, crate=CRATE)
